@@ -504,6 +504,7 @@ func (e *Engine) SolverStats() map[string]interface{} {
 		a.Errors += s.Stats.Errors
 		a.CacheHit += s.Stats.CacheHit
 		a.Seconds += s.Stats.Seconds
+		a.Restarts += s.Stats.Restarts
 	}
 	for _, w := range e.workers {
 		add(w.solver.Primary)
@@ -514,7 +515,7 @@ func (e *Engine) SolverStats() map[string]interface{} {
 	out := map[string]interface{}{}
 	for k, v := range agg {
 		out[k] = map[string]interface{}{"queries": v.Queries, "sat": v.Sat, "unsat": v.Unsat, "unknown": v.Unknown,
-			"errors": v.Errors, "cache_hits": v.CacheHit, "seconds": v.Seconds}
+			"errors": v.Errors, "cache_hits": v.CacheHit, "seconds": v.Seconds, "restarts": v.Restarts}
 	}
 	var dis []string
 	for _, w := range e.workers {
